@@ -298,7 +298,7 @@ func (ft *FT) addObl(fr *frame, kind, detail, guard, goal string, src string, ta
 // ---------------------------------------------------------------------------
 
 func isRepoFunc(fn *ssa.Function) bool {
-	return fn != nil && fn.Pkg != nil && strings.HasPrefix(fn.Pkg.Pkg.Path(), repoPrefix)
+	return fn != nil && fn.Pkg != nil && (strings.HasPrefix(fn.Pkg.Pkg.Path(), repoPrefix) || verifiedDeps[fn.Pkg.Pkg.Path()])
 }
 
 // TranslateFunction produces the obligations for fn against its contract.
